@@ -399,13 +399,148 @@ def wiring(repo, chk):
     fn = repo.func(TS, 'outrank_task_result_summary')
     m = fn.module
     a = fn.params[0]
-    want = [('generate_final_ranking', ['triplets', f'{a}.label_column']), ('create_final_dataframe', ['final_ranking', f'{a}.heuristic']),
-            ('handle_interaction_order', ['final_df', f'{a}.output_folder', f'{a}.heuristic', f'{a}.interaction_order'])]
-    for name, args in want:
+    from ..match import bind_args
+    want = [('generate_final_ranking', [('data', 'read_and_sort_triplets'), ('cfg', 'label_column')]), ('create_final_dataframe', [('data', 'generate_final_ranking'), ('cfg', 'heuristic')]),
+            ('handle_interaction_order', [('data', 'create_final_dataframe'), ('cfg', 'output_folder'), ('cfg', 'heuristic'), ('cfg', 'interaction_order')])]
+    stage_names = {'read_and_sort_triplets', 'generate_final_ranking', 'create_final_dataframe'}
+    cfg_attrs = {'label_column', 'heuristic', 'output_folder', 'interaction_order', 'tldr', 'task', 'data_path'}
+
+    def resolve(e, depth=0):
+        if isinstance(e, ast.Name) and depth < 5:
+            ds = [n.value for n in own_nodes(fn.node) if isinstance(n, ast.Assign) and len(n.targets) == 1 and isinstance(n.targets[0], ast.Name) and n.targets[0].id == e.id]
+            if len(ds) == 1:
+                return resolve(ds[0], depth + 1)
+        return e
+    for name, roles in want:
+        callee = repo.func(TS, name)
         cs = [c for c in calls(fn) if m.dotted(c.func) == f'{TS}.{name}']
-        ok = len(cs) == 1 and [ast.unparse(x) for x in cs[0].args] == args
-        chk.expect(ok, 'C18.5', 'R6', fn.site(cs[0]) if cs else fn.site(), ast.unparse(cs[0]) if cs else name, f'{name} receives its arguments in their roles', f'{name} must be called with ({", ".join(args)})')
+        if len(cs) != 1:
+            chk.expect(False, 'C18.5', 'R6', fn.site(cs[0]) if cs else fn.site(), ast.unparse(cs[0])[:120] if cs else name, '', f'{name} must be called exactly once by the summary task (found {len(cs)} calls)', soft=True)
+            continue
+        ba = bind_args(cs[0], callee)
+        verdict, why = 'ok', ''
+        for pname, (kind, what) in zip(callee.params, roles):
+            v = ba.get(pname)
+            if v is None:
+                verdict, why = 'bad', f'{name} does not receive its parameter {pname}'
+                break
+            r = resolve(v)
+            if kind == 'data':
+                prod = (m.dotted(r.func) or '').split('.')[-1] if isinstance(r, ast.Call) else None
+                if prod == what:
+                    continue
+                if prod in stage_names:
+                    verdict, why = 'bad', f'{name} must receive the result of {what} as {pname}; it receives the result of {prod}'
+                    break
+                # the producer's table after a selection / rewrite: a row filter, a slice, a score-changing method
+                inner = r
+                changed = None
+                for _ in range(4):
+                    if isinstance(inner, ast.Subscript) and not isinstance(inner.slice, ast.Constant):
+                        changed, inner = 'a selection of its rows', resolve(inner.value)
+                    elif isinstance(inner, ast.Call) and isinstance(inner.func, ast.Attribute) and inner.func.attr in ROW_OR_SCORE_OPS:
+                        changed, inner = f'.{inner.func.attr}(..) of it', resolve(inner.func.value)
+                    elif isinstance(inner, ast.Attribute) and inner.attr in ('loc', 'iloc'):
+                        inner = resolve(inner.value)
+                    else:
+                        break
+                if changed and isinstance(inner, ast.Call) and (m.dotted(inner.func) or '').split('.')[-1] == what:
+                    verdict, why = 'bad', f'{name} must receive the table {what} produced; it receives {changed} ({ast.unparse(r)[:60]}): rows / scores are dropped or changed between the stages'
+                    break
+                verdict, why = 'unsure', f'where the value passed as {pname} to {name} comes from was not resolved to the result of {what}'
+            else:
+                if isinstance(r, ast.Attribute) and r.attr == what:
+                    continue
+                if isinstance(r, ast.Attribute) and r.attr in cfg_attrs:
+                    verdict, why = 'bad', f'{name} must receive the configured {what} as {pname}; it receives .{r.attr}'
+                    break
+                if isinstance(r, ast.Constant):
+                    verdict, why = 'bad', f'{name} must receive the configured {what} as {pname}; it receives the constant {r.value!r}'
+                    break
+                verdict, why = 'unsure', f'the value passed as {pname} to {name} was not resolved to the configured {what}'
+        site_ = fn.site(cs[0])
+        if verdict == 'ok':
+            chk.ok('C18.5', 'R6', site_, ast.unparse(cs[0])[:120], f'{name} receives its arguments in their roles')
+        elif verdict == 'bad':
+            chk.bad('C18.5', 'R6', site_, ast.unparse(cs[0])[:120], why)
+        else:
+            chk.unsure('C18.5', 'R6', site_, ast.unparse(cs[0])[:120], why)
+    handed_over_as_produced(chk, fn, m)
     st = repo.func(TS, 'store_summary_files')
     w = [c for c in calls(st, attr='to_csv')]
-    ok = len(w) == 1 and isinstance(w[0].func.value, ast.Name) and w[0].func.value.id == st.params[0] and 'feature_singles.tsv' in ast.unparse(st.node)
+    def strings_of(e, depth=0):
+        out = set()
+        for x in ast.walk(e):
+            if isinstance(x, ast.Constant) and isinstance(x.value, str):
+                out.add(x.value)
+            elif isinstance(x, ast.Name) and depth < 4:
+                for v in st.module.assigns.get(x.id, []) if x.id not in st.params else []:
+                    out |= strings_of(v, depth + 1)
+                for n in own_nodes(st.node):
+                    if isinstance(n, ast.Assign) and len(n.targets) == 1 and isinstance(n.targets[0], ast.Name) and n.targets[0].id == x.id:
+                        out |= strings_of(n.value, depth + 1)
+        return out
+    path = None
+    if len(w) == 1:
+        path = w[0].args[0] if w[0].args else next((k.value for k in w[0].keywords if k.arg == 'path_or_buf'), None)
+    ok = len(w) == 1 and isinstance(w[0].func.value, ast.Name) and w[0].func.value.id == st.params[0] and path is not None and 'feature_singles.tsv' in strings_of(path)
     chk.expect(ok, 'C18.6', 'origin', st.site(w[0]) if w else st.site(), ast.unparse(w[0]) if w else 'to_csv', 'feature_singles.tsv is the summary frame', 'feature_singles.tsv must be written from the summary frame unmodified')
+
+
+ROW_OR_SCORE_OPS = {'clip', 'abs', 'round', 'fillna', 'dropna', 'query', 'head', 'tail', 'sample', 'drop_duplicates', 'nlargest', 'nsmallest', 'replace', 'mask', 'where', 'drop', 'truncate', 'rank',
+                    'apply', 'applymap', 'map', 'transform', 'mul', 'div', 'add', 'sub', 'pow', 'astype', 'loc', 'iloc', 'groupby', 'filter', 'update', 'pop', 'insert', 'rename', 'set_axis'}
+CONSUMED = {'Score', 'FeatureA', 'FeatureB', 'Feature'}
+
+
+def handed_over_as_produced(chk, fn, m):
+    """C18.5b - between the stages of outrank_task_result_summary the intermediate tables (the triplets as read, the selected rows, the summary frame)
+    are handed over as the producing stage returned them: nothing in between stores into their Score / Feature columns, filters or rebinds them."""
+    stage = {'read_and_sort_triplets', 'generate_final_ranking', 'create_final_dataframe'}
+    inter = {}
+    for n in own_nodes(fn.node):
+        if isinstance(n, ast.Assign) and len(n.targets) == 1 and isinstance(n.targets[0], ast.Name) and isinstance(n.value, ast.Call) and (m.dotted(n.value.func) or '').split('.')[-1] in stage:
+            inter.setdefault(n.targets[0].id, []).append(n)
+    if not inter:
+        chk.unsure('C18.5b', 'R1', fn.site(), 'outrank_task_result_summary', 'the tables passed from stage to stage were not found as plain bindings of the stage calls')
+        return
+    problems = 0
+    for n in own_nodes(fn.node):
+        tg = []
+        if isinstance(n, ast.Assign):
+            tg = n.targets
+        elif isinstance(n, (ast.AugAssign, ast.AnnAssign)):
+            tg = [n.target]
+        elif isinstance(n, ast.Delete):
+            tg = n.targets
+        for t in tg:
+            base, key = t, None
+            while isinstance(base, (ast.Subscript, ast.Attribute)):
+                if isinstance(base, ast.Subscript) and isinstance(base.slice, ast.Constant):
+                    key = base.slice.value
+                if isinstance(base, ast.Attribute) and key is None and base.attr not in ('loc', 'iloc', 'at', 'iat', 'values'):
+                    key = base.attr
+                base = base.value
+            if not (isinstance(base, ast.Name) and base.id in inter):
+                continue
+            if t is base:
+                if n in inter[base.id]:
+                    continue
+                problems += 1
+                v = getattr(n, 'value', None)
+                changing = v is not None and any((isinstance(x, ast.Attribute) and x.attr in ROW_OR_SCORE_OPS) or (isinstance(x, ast.Subscript) and not isinstance(x.slice, ast.Constant)) for x in ast.walk(v))
+                (chk.bad if changing else chk.unsure)('C18.5b', 'R1', fn.site(n), ast.unparse(n)[:120], f'the table {base.id} is re-bound between the stage that produced it and the stage that consumes it' +
+                                                     (': rows or scores are changed on the way, so the ranking is not the ranking of the scores that were computed' if changing else '; whether rows and scores are unchanged is not decided'))
+                continue
+            problems += 1
+            if key is None or key in CONSUMED:
+                chk.bad('C18.5b', 'R1', fn.site(n), ast.unparse(n)[:120], f'a store into {base.id}' + (f'[{key!r}]' if key else '') + ' between the stage that produced the table and the stage that consumes it: '
+                        'the summary is computed from scores / names that are not the ones that were written by the ranking')
+            else:
+                problems -= 1
+        if isinstance(n, ast.Call) and isinstance(n.func, ast.Attribute) and isinstance(n.func.value, ast.Name) and n.func.value.id in inter:
+            inplace = any(k.arg == 'inplace' and not (isinstance(k.value, ast.Constant) and k.value.value is False) for k in n.keywords)
+            if inplace or n.func.attr in ('update', 'pop', 'insert', 'clear', 'sort', 'reverse', 'remove', 'append', 'extend'):
+                problems += 1
+                chk.bad('C18.5b', 'R1', fn.site(n), ast.unparse(n)[:120], f'{n.func.value.id} is modified in place between the stage that produced it and the stage that consumes it')
+    if not problems:
+        chk.ok('C18.5b', 'R1', fn.site(), ', '.join(sorted(inter)), 'each intermediate table is bound once, by its producing stage, and reaches the consuming stage untouched', inspected=len(inter))
